@@ -264,3 +264,19 @@ def run(ctx):
         ctx.cov["exhaustive"] = True
     finally:
         lexlib.cleanup_cfgs(ctx)
+
+
+def replay(ctx, path):
+    """Re-run one stored case: prints Lex's expectation and what the current binary delivers."""
+    d = json.load(open(path))
+    c = d["case"]
+    if "word" in c:
+        rc, out, err = vlib.cproc(lexlib.private_build(ctx, "plain"), ("enum { %s };\n" % c["word"]).encode())
+        print("word %r expected kind %s -> rc=%d %s" % (c["word"], c["expected_kind"], rc, err.strip()))
+        return 0 if (rc == 0) == (c["expected_kind"] == "TIDENT") else 1
+    rc, toks, err = lexlib.dump_tokens(lexlib.private_build(ctx, "hooks"), c["text"].encode("latin-1"))
+    obs = [[k, s, sp] for k, s, sp, _, _, _ in toks]
+    exp = [list(t) for t in c.get("expected", [])]
+    print("text     %r\nexpected %s\nobserved rc=%d %s %s" % (c["text"], exp if exp else "rejection with a diagnostic", rc, obs, err.strip()))
+    same = (rc == 0 and obs == exp) if exp else (rc == 1 and bool(lexlib.DIAG.search(err)))
+    return 0 if same else 1
